@@ -23,6 +23,8 @@ func main() {
 		stickyRun()
 	case "reload-run":
 		reloadRun()
+	case "health-run":
+		healthRun()
 	default:
 		fmt.Fprintln(os.Stderr, "unknown subcommand", os.Args[1])
 		vh.Flush()
